@@ -31,6 +31,12 @@ pub struct LiqCase {
     pub q: u64,
     pub q_rel: u8,
     pub wait: u32,
+    /// the collateral bank's e-mode tag is boosted by an entry of the debt bank (maintenance health then depends on it)
+    #[serde(default)]
+    pub emode: bool,
+    /// the admin sets the collateral bank reduce-only after the borrow (its deposits still count at maintenance)
+    #[serde(default)]
+    pub reduce_only_collateral: bool,
 }
 
 pub fn case_strategy() -> impl Strategy<Value = LiqCase> {
@@ -43,14 +49,26 @@ pub fn case_strategy() -> impl Strategy<Value = LiqCase> {
         prop_oneof![1 => Just(0u32), 2 => 1u32..65_536, 3 => 65_536u32..400_000],
         prop_oneof![1 => Just(0u64), 2 => 1_000_000u64..1_000_000_000_000_000],
         (prop_oneof![2 => 1u64..1000, 2 => 1000u64..1_000_000_000_000, 6 => 1u64..=65_536, 2 => 0u64..5], 0u8..3),
-        prop_oneof![Just(0u32), 1u32..90, 1000u32..20_000_000],
+        (prop_oneof![Just(0u32), 1u32..90, 1000u32..20_000_000], prop::bool::weighted(0.35), prop::bool::weighted(0.15)),
     )
-        .prop_map(|(mut banks, collateral, borrow_frac, extra_collateral, target_pm, liq_deposit_frac, liq_collateral, (q, qr), wait)| {
+        .prop_map(|(mut banks, collateral, borrow_frac, extra_collateral, target_pm, liq_deposit_frac, liq_collateral, (q, qr), (wait, emode, reduce_only_collateral))| {
             // bank 0 = collateral (must carry weight), bank 1 = liability (default tag), bank 2 = extra collateral
+            let emode = emode && !banks[1].emode_entries.is_empty();
+            let boosted_tag = banks[1].emode_entries.first().map(|e| e.tag).unwrap_or(0);
             for (i, b) in banks.iter_mut().enumerate() {
                 b.init_limit = 0;
-                b.emode_tag = 0;
-                b.emode_entries.clear();
+                if emode {
+                    // the debt bank keeps its generated entries; the collateral bank carries the tag of the first one
+                    if i == 0 {
+                        b.emode_tag = boosted_tag;
+                    }
+                    if i != 1 {
+                        b.emode_entries.clear();
+                    }
+                } else {
+                    b.emode_tag = 0;
+                    b.emode_entries.clear();
+                }
                 if i != 1 {
                     b.isolated = false;
                     if b.aw_i < 50_000 {
@@ -63,7 +81,7 @@ pub fn case_strategy() -> impl Strategy<Value = LiqCase> {
                 // keep confidence below the 10% usability bound
             }
             let q_rel = if q <= 65_536 && qr == 1 { 1 } else if q < 5 && qr == 2 { 2 } else { 0 };
-            LiqCase { spec: WorldSpec { banks, n_users: 3, program_fees_enabled: false, ..WorldSpec::default() }, collateral, borrow_frac, extra_collateral, target_pm, liq_deposit_frac, liq_collateral, q, q_rel, wait }
+            LiqCase { spec: WorldSpec { banks, n_users: 3, program_fees_enabled: false, ..WorldSpec::default() }, collateral, borrow_frac, extra_collateral, target_pm, liq_deposit_frac, liq_collateral, q, q_rel, wait, emode, reduce_only_collateral }
         })
 }
 
@@ -262,6 +280,12 @@ pub fn run_case(c: &LiqCase, stats: &mut Stats) -> Result<(), (String, String)> 
         let ix = w.ix_deposit(lq.accts[0], lq.auth, xb, lq.tokens[xb], c.liq_collateral, None);
         let _ = w.vm.exec(&ix);
     }
+    if c.reduce_only_collateral {
+        let mut o = marginfi_type_crate::types::BankConfigOpt::default();
+        o.operational_state = Some(marginfi_type_crate::types::BankOperationalState::ReduceOnly);
+        let ix = w.ix_configure_bank(ab, o, w.roles.admin);
+        let _ = w.vm.exec(&ix);
+    }
     w.vm.advance(c.wait as i64);
     w.refresh_oracles();
     stats.built = true;
@@ -343,7 +367,7 @@ pub fn run_case(c: &LiqCase, stats: &mut Stats) -> Result<(), (String, String)> 
     Ok(())
 }
 
-const RULE: &str = "proptest: 3-bank worlds (collateral / debt / extra bank with generated decimals 0-12, SPL / Token-2022 / transfer-fee mints, weights, Pyth-Switchboard-fixed oracles with confidence), liquidatee borrows a generated fraction of its borrowing power, collateral price steered so that maintenance health lands at a generated target in {very negative .. slightly negative, 0, positive}, liquidator funded with too little / enough deposit or other collateral, seize amounts absolute / fraction of / exactly around the collateral position, plus bisection to the largest seize amount that still succeeds. Oracle on every success: reference maintenance health (exact rationals, enclosure; on stored and accrued pre-state) was not positive, is not positive afterwards and not worse, no side flips, liquidator initially healthy, and the five book entries equal the enclosure of 95% / 97.5% / 2.5% of q*p_low/p_high (scaled by decimals) with whole tokens to the insurance vault and the fraction to outstanding insurance fees. Non-trivial = a successful liquidation where both prices carry confidence and the two mints have different decimals; rejection classes are counted.";
+const RULE: &str = "proptest: 3-bank worlds (collateral / debt / extra bank with generated decimals 0-12, SPL / Token-2022 / transfer-fee mints, weights, Pyth-Switchboard-fixed oracles with confidence; in 35 % of the cases the debt bank's e-mode entry boosts the collateral bank's tag, in 15 % the collateral bank is set reduce-only after the borrow), liquidatee borrows a generated fraction of its borrowing power, collateral price steered so that maintenance health lands at a generated target in {very negative .. slightly negative, 0, positive}, liquidator funded with too little / enough deposit or other collateral, seize amounts absolute / fraction of / exactly around the collateral position, plus bisection to the largest seize amount that still succeeds. Oracle on every success: reference maintenance health (exact rationals, enclosure; on stored and accrued pre-state) was not positive, is not positive afterwards and not worse, no side flips, liquidator initially healthy, and the five book entries equal the enclosure of 95% / 97.5% / 2.5% of q*p_low/p_high (scaled by decimals) with whole tokens to the insurance vault and the fraction to outstanding insurance fees. Non-trivial = a successful liquidation where both prices carry confidence and the two mints have different decimals; rejection classes are counted.";
 
 pub fn run(ctx: &Ctx) -> Report {
     let cases: u32 = ctx.tier.pick(3000, 60_000);
@@ -357,6 +381,12 @@ pub fn run(ctx: &Ctx) -> Report {
                 rep.eval();
                 if st.built {
                     rep.label("built");
+                }
+                if st.success && c.emode {
+                    rep.label("success:emode-boosted-collateral");
+                }
+                if st.success && c.reduce_only_collateral {
+                    rep.label("success:reduce-only-collateral");
                 }
                 if st.steered {
                     rep.label("steered");
